@@ -283,7 +283,7 @@ def check_C14(ctx):
     import handles, collections
     ctx.trusted += M1_TRUST + ["Model/File.v (handle state machine with the file-backed write cache) is tied by the correspondence run over handle-call sequences; the memory write cache (mattetti/filebuffer) is not modelled",
                                "reference = afero OsFs (os.File) run side by side; error kinds are not compared (any error = any error); EOF signalling is compared only when no byte is returned; WriteAt on O_APPEND handles and zero-length reads are outside the reference's domain"]
-    coq_props(ctx, "C14", ["C14_spec_demo", "C14_handle_refines_bytearray", "C14_handle_refines_bytearray_wide", "C14_handle_refines_bytearray_eq", "C14_readat_agrees", "C14_writeat_agrees", "C14_seek_beyond_end_refuted", "C14_append_agrees"])
+    coq_props(ctx, "C14", ["C14_spec_demo", "C14_handle_refines_bytearray_all", "C14_handle_refines_bytearray_all_eq", "C14_handle_refines_bytearray_eq", "C14_handle_refines_bytearray", "C14_handle_refines_bytearray_wide", "C14_agree_b_always", "C14_seek_beyond_end_agrees", "C14_seek_beyond_end_then_write_agrees", "C14_trunc_on_empty_agrees", "C14_readat_agrees", "C14_writeat_agrees", "C14_append_agrees"])
     data = handles.handle_stream(ctx)
     tie = handles.c14_tie(ctx, data)
     ctx.oblige("correspondence: Model/File.v evaluates in Coq on the observed handle sequences", tie["ok"], tie["log"])
